@@ -913,7 +913,16 @@ func (w *World) lemmaBody(lem *Lemma, args []SVal) *Term {
 
 func (x *Exec) loopSpec(fr *frame, lp *Loop) *LoopSpec {
 	if fr.fi.Spec == nil {
-		vfail("%s: loop %d has no invariant (function has no contract)", fr.fi.Key, lp.Ordinal)
+		// a loop of an inlined function that has no contract (a helper introduced by a change): cut by
+		// the invariant true
+		x.W.noteOnce(fmt.Sprintf("%s: loop %d of a function without contract: abstracted by havoc (invariant true)", fr.fi.Key, lp.Ordinal))
+		if x.adhocLoops == nil {
+			x.adhocLoops = map[*Loop]*LoopSpec{}
+		}
+		if x.adhocLoops[lp] == nil {
+			x.adhocLoops[lp] = &LoopSpec{N: lp.Ordinal}
+		}
+		return x.adhocLoops[lp]
 	}
 	ls := fr.fi.Spec.Loops[lp.Ordinal]
 	if ls == nil {
@@ -1522,6 +1531,12 @@ func (x *Exec) callEffect(st *State, i *ssa.Call, inLoop *loopCtx, fn *ssa.Funct
 		x.contractEffect(st, fi, eff)
 		return
 	}
+	// a function of this module without contract (a helper introduced by a change) is executed
+	// inline at call sites (callStatic): its effects are those of its body
+	if callee.Blocks != nil && callee.Pkg != nil && strings.HasPrefix(callee.Pkg.Pkg.Path(), modPath) && depth < 4 && x.W.FuncSpecs[externKey(callee)] == nil {
+		x.collectEffects(st, callee, callee.Blocks, &loopCtx{fn: callee, all: true}, eff, depth+1)
+		return
+	}
 	if ext := x.W.FuncSpecs[externKey(callee)]; ext != nil {
 		x.resultEffects(st, callee, eff)
 		for _, c := range ext.Clauses {
@@ -1558,10 +1573,9 @@ func (x *Exec) callEffect(st *State, i *ssa.Call, inLoop *loopCtx, fn *ssa.Funct
 	// unknown callee: results havocked; assumed not to write caller-visible memory only if it
 	// takes no pointer-like arguments
 	for _, a := range c.Args {
-		k := tyFromGo(a.Type()).K
-		if k == TSlice && !tyFromGo(a.Type()).IsStr || k == TPtr || k == TOpaque {
-			vfail("call to %s without contract passes pointer-like argument", callee)
-		}
+		// (a pointer-taking unknown callee fails an extern-frame obligation at the call site; here
+		// its possible writes are approximated by the heaps of its argument types)
+		x.typeHeapEffects(st, tyFromGo(a.Type()), eff)
 	}
 	x.resultEffects(st, callee, eff)
 }
